@@ -512,7 +512,10 @@ def gen_class_trace(b, kind, pattern):
             if not b.faults:
                 env = {"rng": {"seed": _seed(rng)}}
             ops.append({"op": "FIT", "obj": nm, "args": s["fitB"], "env": env})
-            ops.extend(_reads_ops(nm, s, s["fitB"], b))
+            # the reads are repeated under another ambient RNG state as well
+            for o in _reads_ops(nm, s, s["fitB"], b):
+                o["env"] = {"rng": {"seed": _seed(rng)}}
+                ops.append(o)
     elif pattern == "fault":
         ops.append({"op": "NEW", "obj": "e0", "kind": kind, "params": s["params"]})
         if rng.random() < 0.5:
